@@ -115,3 +115,104 @@ func makeDecId(node syntax.NamedNode) decId {
 		Line: node.Line(),
 	}
 }
+
+// materializeBinding is an Edit which makes a binding that only a wildcard
+// binding supplied an explicit one, ahead of the wildcard.  It is used when
+// the name a wildcard matches parameters by changes on one side only.
+type materializeBinding struct {
+	Pipeline *syntax.Pipeline
+	// The call whose bindings are edited, or nil for the return bindings.
+	Call *syntax.CallStm
+	Id   string
+	Exp  syntax.Exp
+}
+
+func (e materializeBinding) Apply(ast *syntax.Ast) (int, error) {
+	for _, pipe := range ast.Pipelines {
+		if pipe.Id == e.Pipeline.Id &&
+			pipe.Node.File().FullPath == e.Pipeline.Node.File().FullPath {
+			if e.Call == nil {
+				if pipe.Ret == nil {
+					return 0, nil
+				}
+				return e.apply(pipe.Ret.Bindings), nil
+			}
+			for _, call := range pipe.Calls {
+				if call.Id == e.Call.Id {
+					return e.apply(call.Bindings), nil
+				}
+			}
+		}
+	}
+	return 0, nil
+}
+
+func (e materializeBinding) apply(bindings *syntax.BindStms) int {
+	if bindings == nil {
+		return 0
+	}
+	for i, bind := range bindings.List {
+		if bind.Id == e.Id {
+			return 0
+		} else if bind.Id == "*" {
+			list := make([]*syntax.BindStm, 0, len(bindings.List)+1)
+			list = append(list, bindings.List[:i]...)
+			list = append(list, &syntax.BindStm{
+				Node: syntax.AstNode{Loc: bind.Node.Loc},
+				Id:   e.Id,
+				Exp:  e.Exp,
+			})
+			bindings.List = append(list, bindings.List[i:]...)
+			return 1
+		}
+	}
+	return 0
+}
+
+// Returns the binding which the wildcard binding in the given compiled
+// bindings expands to for the parameter id, or nil if there is none.
+func wildcardBindingFor(bindings *syntax.BindStms, id string) *syntax.BindStm {
+	if bindings == nil {
+		return nil
+	}
+	for i, bind := range bindings.List {
+		if bind.Id == "*" {
+			for _, b := range bindings.List[i+1:] {
+				if b.Id == id {
+					return b
+				}
+			}
+			return nil
+		}
+	}
+	return nil
+}
+
+// Returns true if the given binding of a compiled pipeline is one which a
+// wildcard binding over all of self or all of the outputs of a call
+// expanded to.  Such a binding has no counterpart in the source text.
+func fromWholeWildcard(pipe *syntax.Pipeline, call *syntax.CallStm,
+	binding *syntax.BindStm) bool {
+	var bindings *syntax.BindStms
+	if call != nil {
+		bindings = call.Bindings
+	} else if pipe != nil && pipe.Ret != nil {
+		bindings = pipe.Ret.Bindings
+	}
+	if bindings == nil || wildcardBindingFor(bindings, binding.Id) != binding {
+		return false
+	}
+	for _, bind := range bindings.List {
+		if bind.Id == "*" {
+			ref, ok := bind.Exp.(*syntax.RefExp)
+			if !ok {
+				return false
+			} else if ref.Kind == syntax.KindSelf {
+				return ref.Id == ""
+			} else {
+				return ref.OutputId == ""
+			}
+		}
+	}
+	return false
+}
